@@ -77,6 +77,29 @@ def run_one(mid, prop):
 
 def main():
     want = sys.argv[1:]
+    if want and want[0] == "--pairs":
+        # lib/matrix.py --pairs C01-B8:C07 C02-B8:C03 ...   run the given (change, check) pairs
+        # only and merge the verdicts into the rows already recorded
+        mpath = os.path.join(SEEDED, "matrix.json")
+        matrix = json.load(open(mpath)) if os.path.exists(mpath) else {}
+        for pair in want[1:]:
+            mid, pr = pair.split(":")
+            v, what = run_one(mid, pr)
+            print(f"{mid:14s} {pr}: {v} {what}", flush=True)
+            row = matrix.setdefault(mid, {})
+            row[pr] = {"verdict": v, "first": what}
+            meta_p = os.path.join(SEEDED, mid, "meta.json")
+            try:
+                meta = json.load(open(meta_p))
+            except Exception:
+                meta = {}
+            meta["detected_by"] = sorted(p for p, r in row.items() if r["verdict"] == "VIOLATION")
+            meta["missed_by"] = sorted(p for p, r in row.items() if r["verdict"] == "MISSED")
+            meta["first_violation"] = {p: r["first"] for p, r in row.items() if r["verdict"] == "VIOLATION"}
+            json.dump(meta, open(meta_p, "w"), indent=1)
+            json.dump(matrix, open(mpath, "w"), indent=1, sort_keys=True)
+        print("done; run ./setup.sh (or any ./check) to rebuild against the clean tree")
+        return
     ids = sorted(d for d in os.listdir(SEEDED) if os.path.exists(os.path.join(SEEDED, d, "patch.diff")))
     # changes that a later fix: commit neutralized are kept for the record but not run
     def superseded(d):
